@@ -8,7 +8,7 @@ BASELINE = "cd /repo && cargo test --workspace --no-fail-fast --offline"
 CLAIMED = {
     "C01": (
         "runtime monitor: accepted-implies-lossless boundary oracle (reference tokeniser on input vs serialised output) + byte-conservation monitor over MessageParser hook events",
-        "Exploration: every corpus message of all 30 types, and generated messages of every type (maximal, one per documented option, random shapes), under every single structural mutation (unknown / duplicated / deleted / swapped / moved / foreign fields, unknown option letter, appended content, extra lines, terminator and marker look-alikes inside and at the ends of values, certainly-invalid content, repetition counts around caps, LF/CRLF, bare and in an envelope; pairs of mutations in thorough). For each accepted text the reference-tokenised input must equal the tokenised output (tags in order, content up to number / line-end formatting) and the hook trace must account for every byte.",
+        "Exploration: every corpus message of all 30 types, and generated messages of every type (maximal, one per documented option, random shapes), under every single structural mutation (unknown / duplicated / deleted / swapped / moved / foreign fields, unknown option letter, appended content, extra lines, terminator and marker look-alikes inside and at the ends of values, certainly-invalid content, repetition counts around caps, LF/CRLF, bare and in an envelope; pairs of mutations in thorough). For each accepted text the reference-tokenised input must equal the tokenised output (tags in order, content up to number / line-end formatting) and the hook trace must account for every byte. The same accepted message is also taken through its own JSON (typed route) and, where the direct route reproduces the input, through the publish plugin: the published fields must be those of the direct serialisation.",
         "Trusted: the 30-line reference tokeniser and the number canonicalisation. Hooks only explain and double-check; the boundary comparison is primary.",
         "DESIGN.md section 3, C01",
     ),
@@ -20,19 +20,19 @@ CLAIMED = {
     ),
     "C08": (
         "runtime monitor: metamorphic JSON equalities (from_value.to_value = id, publish = to_mt_message, parse plugin = to_value.parse) + structural scan (input order, no empty placeholders, numeric leaves) on generated, corpus and field-level values",
-        "Exploration: generated well-formed messages of all 30 types in generated and corpus envelopes, all corpus messages, every corpus field content with spelling variants through every field type and every spec-derived boundary candidate (lengths, dates around the century window, character classes): JSON round trip must not change the value, publishing the JSON must equal direct serialisation, the parse plugin must agree with the typed API, every written occurrence must sit at its input position in the JSON, no empty placeholder and no non-numeric amount / rate.",
+        "Exploration: generated well-formed messages of all 30 types in generated and corpus envelopes, all corpus messages, every corpus field content with spelling variants through every field type and every spec-derived boundary candidate (lengths, dates around the century window, character classes): JSON round trip must not change the value, publishing the JSON must equal direct serialisation, the parse plugin must agree with the typed API, every written occurrence must sit at its input position in the JSON, no empty placeholder and no non-numeric amount / rate. The envelope part of the JSON is scanned for empty placeholders as well (every block-3 tag at its boundary lengths, every valued block-5 tag, present-but-empty blocks), publish differences are keyed by their cause, and every amount-bearing field is fed float spellings, overflowing exponents and over-long digit strings: an accepted one must give a finite JSON number.",
         "Equality judged on Debug rendering and serde_json values (null = absent, numbers by exact decimal).",
         "DESIGN.md section 3, C08",
     ),
     "C09": (
         "runtime monitor: deletion / corruption of every field occurrence of generated valid messages; mandatory-ness decided by an independent layout acceptor; culprit identification checked on structured and rendered errors",
-        "Exploration: for valid generated messages of all 30 types every occurrence is deleted (judged when the independent layout acceptor rejects the remaining tag sequence) and every structured field is given three certainly-invalid contents; the library must reject and the error must identify tag and message type / tag and content.",
+        "Exploration: for valid generated messages of all 30 types every occurrence is deleted (judged when the independent layout acceptor rejects the remaining tag sequence) and every structured field is given three certainly-invalid contents; the library must reject and the error must identify tag and message type / tag and content. Long invalid contents (300 / 700 characters, every field) must come back whole in the error; the parse_mt and validate_mt plugins and the full-message route must keep what the parser's own error identifies and must reject what the text-block route rejects.",
         "Trusted base: spec/layout.rs acceptor; identification is judged leniently (payload or rendered text).",
         "DESIGN.md section 3, C09",
     ),
     "C10": (
         "runtime monitor: envelope generator + independent brace-structure reader; tag->value map comparison of input vs re-serialised output; near-miss malformed headers must be rejected",
-        "Exploration (exhaustive over the 8192 block-3 and 256 block-5 tag subsets): envelopes built from documented components around real bodies of all 30 types (input headers 17/18/21, output headers 46/47, 8/11-character BICs, every block-3 tag at its minimum and maximum documented length, marker look-alikes inside values) must be accepted and reproduced (blocks 1, 2 byte-identical; blocks 3, 5 as tag->value maps), and headers of wrong length, direction or character class must be rejected.",
+        "Exploration (exhaustive over the 8192 block-3 and 256 block-5 tag subsets): envelopes built from documented components around real bodies of all 30 types (input headers 17/18/21, output headers 46/47, 8/11-character BICs, every block-3 tag at its minimum and maximum documented length, marker look-alikes inside values) must be accepted and reproduced (blocks 1, 2 byte-identical; blocks 3, 5 as tag->value maps), and headers of wrong length, direction or character class must be rejected. Block presence (present-but-empty blocks), every ordered pair of block-3 and block-5 tags, the JSON route, the direct header parsers and accessors and a second parse / serialise generation are judged too.",
         "Trusted: 40-line brace splitter; malformed classes limited to those the statement names.",
         "DESIGN.md section 3, C10",
     ),
@@ -44,7 +44,7 @@ CLAIMED = {
     ),
     "C12": (
         "runtime monitor: metamorphic agreement of five entry points with the typed API; exhaustive 30x30 typed matrix and codes 000-999",
-        "Exploration, exhaustive in the type dimensions: every (announced, requested) pair of the 30 types and every three-digit code is driven through parse_auto, typed parse and the parse / validate / publish plugin handlers on real messages; results are compared with the typed API and with the fixed T03 / unsupported expectations.",
+        "Exploration, exhaustive in the type dimensions: every (announced, requested) pair of the 30 types and every three-digit code is driven through parse_auto, typed parse and the parse / validate / publish plugin handlers on real messages; results are compared with the typed API and with the fixed T03 / unsupported expectations. Also: accessors and inherent parsers, parse_with_errors, the full-message route against the text-block route of the typed API on valid, rule-violating and hostile bodies, messages of up to 190 000 characters, and the wrapper's classification predicates against the body's own.",
         "Bodies are sampled from the committed scenario corpus; equality of results is judged on serde_json values.",
         "DESIGN.md section 3, C12",
     ),
@@ -68,7 +68,7 @@ CLAIMED = {
     ),
     "C16": (
         "runtime monitor: reference tokeniser vs field map; offline check of recorded tracker call/return histories against a sequential model; conservation check of sequence splitting",
-        "Exploration: block-4 texts of all corpus messages and their structural mutants are tokenised by the library and by the reference tokeniser (occurrences, documented tag normalisation, content, strictly increasing stamps); thousands of short random histories of the consumption API (lookups by tag and option constraint, next-available, consumption in and out of input order) are recorded at the call boundary and checked (each occurrence at most once, input order, allowed variants only, drain returns the rest exactly once); every sequence configuration is checked for A+B+C = input.",
+        "Exploration: block-4 texts of all corpus messages and their structural mutants are tokenised by the library and by the reference tokeniser (occurrences, documented tag normalisation, content, strictly increasing stamps); thousands of short random histories of the consumption API (lookups by tag and option constraint, next-available, consumption in and out of input order) are recorded at the call boundary and checked (each occurrence at most once, input order, allowed variants only, drain returns the rest exactly once); every sequence configuration is checked for A+B+C = input. Numbered tags, empty and blank contents, texts of 1 000 to 70 000 fields (stamp packing), the documented placement rules of split_into_sequences (incl. a hand-built statement configuration) and parse_sequences with probe item types for each type name it dispatches on (grouping, consumption, statement-line rule) are covered as well.",
         "Trusted: reference tokeniser; the restated normalisation rule tolerates both spellings where the documentation is silent.",
         "DESIGN.md section 3, C16",
     ),
@@ -80,7 +80,7 @@ CLAIMED = {
     ),
     "C17": (
         "runtime monitor, exhaustive product of code-word variants x places x types; documented-place oracle (three-valued), cross-type agreement, predicate-implies-method check through the real parse plugin",
-        "Exhaustive exploration of the product the property quantifies over (20 field-72 variants x 6 {108:} variants x 5 {119:} variants) on real messages of MT103/202/205 and of each other type, plus MT202 with a cover sequence carrying none / one / both customer fields: classification iff code word at a documented place, return-only never reject, same words same classification across supporting types, plugin method = method implied by the predicates.",
+        "Exhaustive exploration of the product the property quantifies over (20 field-72 variants x 6 {108:} variants x 5 {119:} variants) on real messages of MT103/202/205 and of each other type, plus MT202 with a cover sequence carrying none / one / both customer fields: classification iff code word at a documented place, return-only never reject, same words same classification across supporting types, plugin method = method implied by the predicates. Later additions: multi-line and mixed-case variants, block-3 tags in other orders, the JSON route with both spellings of the message type, cross-type agreement of the plugin's reject / return verdict between MT202 and MT205, and the MT199 predicates with a symmetry relation between the two code words.",
         "Documented places are restated in the harness (line start of field 72, whole {108:} value); other spellings are only used for agreement checks.",
         "DESIGN.md section 3, C17",
     ),
@@ -98,7 +98,7 @@ CLAIMED = {
     ),
     "C06": (
         "runtime monitor: exact-decimal reference model on the amount text + independent ISO-4217 minor-unit table; class-labelled candidates through all amount/rate fields; value preservation through MT, JSON and JSON->MT",
-        "Exploration: 20 amount / rate field types x 47 currencies (0/2/3/4 decimals) x non-decimal spellings (NaN, inf, exponent, signs, blanks, hex, non-ASCII digits ...) x magnitudes of 1-17 integer digits x 0-5 decimals around every length limit: accepted iff a decimal within the field's limit and the currency's precision; every accepted decimal keeps its exact value when serialised, in the JSON number and from JSON back to MT.",
+        "Exploration: 20 amount / rate field types x 47 currencies (0/2/3/4 decimals) x non-decimal spellings (NaN, inf, exponent, signs, blanks, hex, non-ASCII digits ...) x magnitudes of 1-17 integer digits x 0-5 decimals around every length limit: accepted iff a decimal within the field's limit and the currency's precision; every accepted decimal keeps its exact value when serialised, in the JSON number and from JSON back to MT. The serialised amount is re-parsed (the library must read what it writes, with the same value), an amount written with exactly the currency's decimals must come back character for character, and an amount leaf given as a JSON string in any float spelling must not be read.",
         "Trusted: the 30-line reference classifier and the ISO-4217 table. Integer without comma, '.' separator, zero and surplus trailing zeros are not judged.",
         "DESIGN.md section 3, C06",
     ),
